@@ -1023,6 +1023,7 @@ fn raw_part(
     outs.sort_by_key(|o| o.0);
     let mut accepted = 0usize;
     let mut rejected = 0usize;
+    let mut seen_keys: BTreeSet<String> = BTreeSet::new();
     for (_, a) in outs {
         agg.runs += a.runs;
         agg.instr += a.instr;
@@ -1045,7 +1046,9 @@ fn raw_part(
         rejected += a.rejected;
         for (f, c) in a.found {
             if f.property == cfg.id {
-                if violations.len() < 64 {
+                // one case per distinct finding: a finding that is seen thousands of
+                // times (a known one, typically) must not crowd out the others
+                if violations.len() < 256 && seen_keys.insert(f.key.clone()) {
                     violations.push((f, c));
                 }
             } else {
@@ -1125,7 +1128,7 @@ fn raw_account(a: &mut RawAgg, case: &crate::raw::RawCase, r: crate::raw::RawRun
     };
     *a.outcomes.entry(o.to_string()).or_insert(0) += 1;
     for f in r.found {
-        if a.found.len() < 4 {
+        if a.found.len() < 8 && !a.found.iter().any(|(g, _)| g.property == f.property && g.key == f.key) {
             a.found.push((f, case.clone()));
         }
     }
